@@ -215,11 +215,11 @@ pub fn shard_run(tier: &str, seed: u64, shard: Shard) -> ShardOut {
         for workers in [1usize, 2] {
             let web = WebServer::new(Config::default().to_server(), None, InMemoryStorage::new());
             let Ok(srv) = SockServer::start(web, workers) else { continue };
-            for (i, (na, nb)) in [(3000usize, 200usize), (70_000, 70_000), (5, 300_000), (200, 3000)].iter().enumerate() {
+            for (i, (na, nb, abab)) in [(3000usize, 200usize, false), (70_000, 70_000, true), (5, 300_000, false), (200, 3000, true), (3000, 200, true)].iter().enumerate() {
                 let (ca, cb) = (Uuid::new_v4(), Uuid::new_v4());
-                let o = crate::checks_c06::overlapping_version_uploads(&srv.addr, ca, cb, *na, *nb, seed ^ (i as u64) << 9);
+                let o = crate::checks_c06::overlapping_version_uploads_pattern(&srv.addr, ca, cb, *na, *nb, seed ^ (i as u64) << 9, *abab);
                 cov.evaluations += 2;
-                cov.hit(format!("overlapping-uploads-of-two-clients|workers={workers}"));
+                cov.hit(format!("overlapping-uploads-of-two-clients|workers={workers}|{}", if *abab { "A1,B1,A2,B2" } else { "A1,B,A2" }));
                 for (who, up, down, want, other) in [("A", &o.a_up, &o.a_down, &o.da, &o.db), ("B", &o.b_up, &o.b_down, &o.db, &o.da)] {
                     if let (Resp::AddOk { .. }, Resp::Found { data, .. }) = (up, down) {
                         if data != want {
